@@ -37,6 +37,18 @@ def make_files(work, rng, n, nops=(6, 12, 20), flavor="plain", big=0):
     files = sorted(keep.glob("*.cdns"))
     if not files:
         raise vlib.Infra("no files generated")
+    # block boundaries of each kept file = running sum of the byte counts the exporter returned (used to place cuts)
+    bounds, cur, hno = {}, [], -1
+    for line in (work / "gen.ndjson").read_text().splitlines():
+        ev = json.loads(line)
+        if ev.get("e") == "R":
+            hno += 1
+            cur = [0]
+        elif ev.get("e") == "C" and ev.get("ret", 0) and ev["op"]["op"] in ("qr", "aec", "mm", "wb"):
+            cur.append(cur[-1] + ev["ret"])
+        elif ev.get("e") == "OUT":
+            bounds[f"h{hno}_0.cdns"] = list(cur)
+    make_files.bounds = bounds
     return files
 
 
